@@ -88,6 +88,11 @@ def sim_cases(draw):
         # the child exits but something else keeps its terminal open and silent: no hang-up, no data; the death
         # is only visible through the liveness checks, and the call must still end by its deadline
         sched = 'exit-noclose'
+    if kind == 'pty' and Teff not in (None, 0) and entry != 'waitnoecho' and enc is None and sched not in ('exit-noclose',) \
+            and draw(st.integers(0, 9)) == 0:
+        # the child closes its terminal while the reader is inside its timed wait, and goes on living: the hang-up
+        # ends the call (EOF); only a hang-up that *precedes* the call is the open finding
+        sched = 'hangup-in-wait'
     acts = []
     tm = None
     if 'trickle' in sched:
@@ -114,6 +119,9 @@ def sim_cases(draw):
             # precedes the exit by more than that is the excluded known-finding class)
             acts.append({'t': te + draw(st.integers(0, 3)) * 1e-6, 'op': 'exit', 'status': draw(st.sampled_from([0, 256, 9]))})
         acts.append({'t': te + draw(st.integers(0, 3)) * 1e-6, 'op': 'close'})
+    if sched == 'hangup-in-wait':
+        te = base * draw(st.sampled_from([0.3, 0.6]))
+        acts.append({'t': te, 'op': 'close'})
     if sched == 'halfchar':
         acts.append({'t': base * draw(st.sampled_from([0.0, 0.0, 0.3, 0.9])), 'op': 'write',
                      'data': draw(st.sampled_from([b'\xc3', b'\xe2\x82', b'\xf0\x9f\x98']))})
@@ -152,6 +160,8 @@ def expected(case, observed=None):
         tm, te, first_data = observed
     if entry == 'read_nonblocking':
         tm = first_data
+    if case['sched'] == 'hangup-in-wait':
+        return {'kind': 'eof', 'at': te}
     if case['sched'] == 'exit-noclose':
         # no data ever: EOF (the death was noticed) and TIMEOUT are both right; what is decided is the deadline
         return {'kind': 'eof-or-timeout', 'at': te}
